@@ -97,7 +97,7 @@ def main():
     inplace_lib.install()        # ... of extract_npu_subgraphs and _get_ifm_to_fuse (design.d/InPlace.md)
     inplace_lib.install_profile()
     sched_lib.install()          # ... of the Scheduler / CascadeBuilder memory bookkeeping (design.d/SchedMem.md)
-    serial_lib.install()         # ... of npu_serialisation / allocate_tensors / the weight encoder (design.d/Serialise.md)
+    serial_lib.install(every=4 if ck.thorough else 1)         # ... of npu_serialisation / allocate_tensors / the weight encoder (design.d/Serialise.md)
     if sched_lib.replay(ck):
         return
     ip_stub_stats = inplace_lib.stage(ck, [], prefix="inplace_stub_", compiled=False)     # function level first
